@@ -35,11 +35,13 @@ def shrink(mn, cnt, mx):
 
 def try_replay(pid, r, fails, vals, rdir):
     name = r['name']
-    m = re.match(r'^world(_mv)?\.(call\.mock_func|find\.[a-z_.]+)#N(\d)\.([ASD]+)', name)
+    m = re.match(r'^world(_mv)?\.(call\.mock_func|find\.[a-z_.]+|dtor\.expectation_lifetime_ends|mockdtor\.[a-z_]+|seqdtor\.sequence_object_dies)#N(\d)\.([ASD]+)(?:\.T(\d))?', name)
     if not m:
         open(os.path.join(rdir, 'replay_note.txt'), 'w').write('no C++ replay template for obligation %s; the counterexample is in violation.json\n' % name)
         return False
     movable = bool(m.group(1)); N = int(m.group(3)); where = ['ASD'.index(ch) for ch in m.group(4)]
+    op = 'call' if m.group(2).startswith(('call', 'find')) else m.group(2).split('.')[0]
+    target = int(m.group(5)) if m.group(5) else 0
     st = []
     for i in range(N):
         mn, cnt, mx = _get(vals, 'in_min', i), _get(vals, 'in_cnt', i), _get(vals, 'in_max', i)
@@ -54,7 +56,10 @@ def try_replay(pid, r, fails, vals, rdir):
                    'nact': _get(vals, 'in_nact', i) or 0, 'athrow': [(_get(vals, 'in_athrow', i, a) or 0) for a in range(2)],
                    'rthrow': _get(vals, 'in_rthrow', i) or 0})
     if any(e['where'] == 2 for e in st): return _note(rdir, 'state has an expectation whose mock was destroyed first: not expressible in the call replay')
-    if any(e['reported'] for e in st): return _note(rdir, 'state needs an earlier violation report naming an expectation: not expressible in the call replay')
+    rep_all = any(e['reported'] for e in st)
+    if rep_all and not all(e['reported'] == (e['where'] == 0) for e in st):
+        return _note(rdir, 'state needs an earlier violation report naming only some expectations: not expressible in the replay')
+    for e in st: e['rep_all'] = rep_all
     # the set-up history (oldest expectation first, `cnt` calls each) must lead to exactly the registered-handle state
     # of the counterexample; simulated here with the property's semantics, otherwise the state is not constructible
     def seq_of(i, k): return st[i]['seq0'] if k == 0 else 1 - st[i]['seq0']
@@ -77,7 +82,7 @@ def try_replay(pid, r, fails, vals, rdir):
         for k in range(st[i]['K']):
             if link[i][k] != st[i]['linked'][k]:
                 return _note(rdir, 'the registered-handle state of the counterexample (expectation %d, handle %d) is not the one the canonical set-up history produces' % (i, k))
-    src = gen_call_program(N, st, movable)
+    src = gen_call_program(N, st, movable, op, target)
     for old in ('replay_note.txt', 'replay_output.txt'):
         try: os.remove(os.path.join(rdir, old))
         except OSError: pass
@@ -100,11 +105,11 @@ def try_replay(pid, r, fails, vals, rdir):
 def _note(rdir, text):
     open(os.path.join(rdir, 'replay_note.txt'), 'w').write(text + '\n'); return False
 
-def gen_call_program(N, st, movable):
+def gen_call_program(N, st, movable, op='call', target=0):
     """C++14 program: build the state, call f(x), compare with the property"""
     L = []
     L.append('// generated by /verif/tools/replay.py from a CBMC counterexample: state of one mock function, then one call')
-    L.append('#include <trompeloeil.hpp>\n#include <cstdio>\n#include <memory>\n#include <string>\n#include <vector>\n#include <stdexcept>')
+    L.append('#include <trompeloeil.hpp>\n#include <cstdio>\n#include <cstdlib>\n#include <memory>\n#include <string>\n#include <vector>\n#include <stdexcept>')
     L.append('using trompeloeil::_;')
     L.append('struct fatal_report {};\nstruct user_exc : std::runtime_error { user_exc() : std::runtime_error("user") {} };')
     L.append('struct Rep { bool fatal; unsigned long line; std::string msg; };\nstatic std::vector<Rep> reps; static std::vector<std::string> oks; static std::vector<std::string> events;')
@@ -115,7 +120,7 @@ def gen_call_program(N, st, movable):
     L.append('int main()\n{')
     L.append('  trompeloeil::set_reporter([](trompeloeil::severity s, char const*, unsigned long line, std::string const& msg) { reps.push_back({s == trompeloeil::severity::fatal, line, msg}); if (s == trompeloeil::severity::fatal) throw fatal_report{}; },')
     L.append('                            [](char const* msg) { oks.push_back(msg); });')
-    L.append('  bool broken = false;\n  M m;\n  trompeloeil::sequence s0, s1;')
+    L.append('  bool broken = false;\n  std::unique_ptr<M> mp(new M); M& m = *mp;\n  std::unique_ptr<trompeloeil::sequence> s0p(new trompeloeil::sequence), s1p(new trompeloeil::sequence); trompeloeil::sequence& s0 = *s0p; trompeloeil::sequence& s1 = *s1p;')
     for i in range(N):
         for c, v in enumerate(st[i]['cres']): L.append('  bool c_%d_%d = %s;' % (i, c, 'true' if v else 'false'))
     L.append('  unsigned long line_of[%d];' % N)
@@ -139,6 +144,9 @@ def gen_call_program(N, st, movable):
         if st[i]['cnt'] > 0:
             L.append('  setup_target = %d; for (int k = 0; k < %d; ++k) { try { m.f(0); } catch (fatal_report&) { NEED(false, "a set-up call was rejected"); } }' % (i, st[i]['cnt']))
     L.append('  setup_target = -1; NEED(reps.empty(), "set-up produced a report"); oks.clear();')
+    if st and st[0].get('rep_all'):
+        L.append('  // an earlier call that nothing matches: its report names every live expectation')
+        L.append('  setup_target = -2; try { m.f(0); NEED(false, "the no-match set-up call was accepted"); } catch (fatal_report&) {} setup_target = -1; reps.clear();')
     for i in range(N):
         e = st[i]
         L.append('  NEED(e%d->is_satisfied() == %s && e%d->is_saturated() == %s, "bounds/count of expectation %d");' % (i, 'true' if e['cnt'] >= e['min'] else 'false', i, 'true' if e['cnt'] == e['max'] else 'false', i))
@@ -167,6 +175,35 @@ def gen_call_program(N, st, movable):
         if st[i]['where'] == 0 and all(st[i]['cres']):
             if cand is None or cost(i) < cost(cand): cand = i
     accepted = cand is not None and st[cand]['max'] != 0 and cost(cand) < (1 << 40)
+    if op != 'call':
+        pend = lambda i: st[i]['cnt'] < st[i]['min'] and not st[i]['reported']     # already named in an earlier report => silent
+        if op == 'dtor':
+            L.append('  // ---- the expectation\'s lifetime ends')
+            L.append('  e%d.reset();' % target)
+            L.append('  CHECK(reps.size() == %d, "end of lifetime: exactly one report iff the lower bound was missed");' % (1 if pend(target) else 0))
+            if pend(target): L.append('  CHECK(!reps.empty() && !reps[0].fatal && reps[0].line == line_of[%d], "the report is non-fatal and carries the expectation\'s location");' % target)
+            for i in range(N):
+                if i != target: L.append('  CHECK(e%d->is_satisfied() == %s && e%d->is_saturated() == %s, "other expectations are untouched (expectation %d)");' % (i, 'true' if st[i]['cnt'] >= st[i]['min'] else 'false', i, 'true' if st[i]['cnt'] == st[i]['max'] else 'false', i))
+        elif op == 'mockdtor':
+            L.append('  // ---- the mock object dies first, the expectations are released later')
+            L.append('  mp.reset();')
+            L.append('  CHECK(reps.size() == %d, "mock destruction: one report per pending expectation");' % sum(1 for i in range(N) if pend(i)))
+            L.append('  for (auto& r : reps) CHECK(!r.fatal, "reports from a destructor are non-fatal");')
+            for i in range(N):
+                if pend(i): L.append('  { int hits = 0; for (auto& r : reps) if (r.line == line_of[%d]) ++hits; CHECK(hits == 1, "exactly one report carries the location of pending expectation %d"); }' % (i, i))
+            L.append('  size_t before = reps.size();')
+            L.append('  ' + ' '.join('e%d.reset();' % i for i in range(N)))
+            L.append('  CHECK(reps.size() == before, "no shortfall is reported twice when the expectation is released later");')
+        elif op == 'seqdtor':
+            pending0 = sum(1 for i in range(N) for k in range(st[i]['K']) if (st[i]['seq0'] if k == 0 else 1 - st[i]['seq0']) == 0 and st[i]['linked'][k])
+            L.append('  // ---- the sequence object dies while expectations may still be registered in it')
+            L.append('  s0p.reset();')
+            L.append('  CHECK(reps.size() == %d, "sequence destruction: one report iff expectations are still registered");' % (1 if pending0 else 0))
+            L.append('  for (auto& r : reps) CHECK(!r.fatal, "reports from a destructor are non-fatal");')
+        L.append('  std::printf(broken ? "REPLAY: violation reproduced on the real headers\\n" : "REPLAY: the real code behaves as the property says on this input\\n");')
+        L.append('  reps.clear(); std::fflush(stdout); std::_Exit(broken ? 1 : 0);   // leave without running further destructors')
+        L.append('}')
+        return '\n'.join(L) + '\n'
     L.append('  // ---- the call under test')
     L.append('  final_call = true; bool fatal = false, user = false; int ret = -1;')
     L.append('  try { ret = m.f(1); } catch (fatal_report&) { fatal = true; } catch (user_exc&) { user = true; }')
